@@ -562,70 +562,99 @@ def expected_of(sp):
 
 
 # ---------------------------------------------------------------- attribution by isolation
-def _roundtrip_ok(sps, write_date, tmp, supp=None, supp_txt=None):
-    """True when the real writer + reader round-trip exactly these species (names, phases,
-    element counts, number of species) and the independent parser accepts the text."""
+def _roundtrip(sps, write_date, tmp, supp=None, supp_txt=None):
+    """Outcome of the real writer + reader on exactly these species: 'ok', 'write:<Exc>',
+    'read:<Exc>' or 'mismatch' (number of species, names, phases, element counts)."""
     from pmutt.io.thermdat import write_thermdat, read_thermdat
+    kw = {}
+    st = supp_text(supp)
+    if st:
+        kw['supp_data'] = st
+    if supp_txt is not None:
+        kw['supp_txt'] = supp_txt
+    objs = [build_sp(s) for s in sps]
     try:
-        kw = {}
-        st = supp_text(supp)
-        if st:
-            kw['supp_data'] = st
-        if supp_txt is not None:
-            kw['supp_txt'] = supp_txt
-        txt = write_thermdat([build_sp(s) for s in sps], filename=None, write_date=write_date, **kw)
-        P = rt.parse(txt)
-        n_supp = len(supp or [])
-        if P.all_problems() or len(P.entries) != len(sps) + n_supp:
-            return False
-        with open(tmp, 'w', newline='') as f:
-            f.write(txt)
+        txt = write_thermdat(objs, filename=None, write_date=write_date, **kw)
+    except Exception as e:
+        return 'write:' + type(e).__name__
+    n_supp = len(supp or [])
+    with open(tmp, 'w', newline='') as f:
+        f.write(txt)
+    try:
         back = read_thermdat(tmp)
+    except Exception as e:
+        return 'read:' + type(e).__name__
+    try:
         if len(back) != len(sps) + n_supp:
-            return False
+            return 'mismatch'
         for b, s in zip(back[n_supp:], sps):
             e = expected_of(s)
             if b.name != e['name'] or b.phase != e['phase'] or dict(b.elements) != e['elements']:
-                return False
-        return True
-    except core.HarnessError:
-        raise
+                return 'mismatch'
     except Exception:
-        return False
+        return 'mismatch'
+    return 'ok'
 
 
-def diagnose_species(sp, write_date, tmp):
-    """Reduce a failing species to the single feature that fails on an otherwise benign
-    species.  Returns the discriminating part of a mech."""
+def _anchor(sp):
+    return dict(sp, name='A0', elements=[['H', 1, 'int']], notes=None)
+
+
+def _bad(sp, wd, tmp, symptom):
+    """Does this species reproduce the file-level symptom?
+    symptom: 'write:<Exc>' | 'read:<Exc>' | 'silent' (species dropped / duplicated without
+    an exception) | None (any failure).  A silent symptom is looked for behind a benign
+    first species, because a reader that skips a record of the *first* species has nothing
+    to merge it into."""
+    solo = _roundtrip([sp], wd, tmp)
+    if symptom is None:
+        return solo != 'ok'
+    if symptom == 'silent':
+        return solo == 'mismatch' or _roundtrip([_anchor(sp), sp], wd, tmp) == 'mismatch'
+    if solo == symptom:
+        return True
+    if symptom.startswith('read:') and not solo.startswith('write:'):
+        return _roundtrip([_anchor(sp), sp], wd, tmp) == symptom
+    return False
+
+
+def diagnose_species(sp, wd, tmp, symptom=None):
+    """Reduce a failing species to the single feature that reproduces the symptom on an
+    otherwise benign species.  Returns the discriminating part of a mech."""
+    bad = lambda v: _bad(v, wd, tmp, symptom)
     benign = dict(sp, name='X', elements=[['H', 1, 'int']], notes=None)
-    if _roundtrip_ok([sp], write_date, tmp):
+    if not bad(sp):
+        if symptom is not None:
+            return diagnose_species(sp, wd, tmp, None)
         return {'cause': 'context', 'name_class': name_classes(sp['name'])[0]}
-    if not _roundtrip_ok([dict(benign, name=sp['name'])], write_date, tmp):
+    if bad(dict(benign, name=sp['name'])):
         return {'cause': 'name', 'name_class': name_classes(sp['name'])[0]}
     for el in nonzero(sp):
-        if not _roundtrip_ok([dict(benign, elements=[el])], write_date, tmp):
+        if bad(dict(benign, elements=[el])):
             return dict(elem_features(el), cause='composition')
-    if not _roundtrip_ok([dict(benign, notes=sp.get('notes'))], write_date, tmp):
+    if bad(dict(benign, notes=sp.get('notes'))):
         return {'cause': 'notes', 'notes_class': notes_class(sp.get('notes'))}
-    if not _roundtrip_ok([dict(benign, elements=sp['elements'])], write_date, tmp):
+    if bad(dict(benign, elements=sp['elements'])):
         zero = any(e[1] == 0 for e in sp['elements'])
         return {'cause': 'composition', 'combo': 'zero_count' if zero else 'n_elements=%d' % len(nonzero(sp))}
-    if not _roundtrip_ok([benign], write_date, tmp):
+    if bad(benign):
         return {'cause': 'numbers_or_phase'}
     return {'cause': 'combination'}
 
 
-def diagnose_file(spec, tmp):
-    """First species that fails alone (reduced to one feature); otherwise the optional
+def diagnose_file(spec, tmp, symptom=None):
+    """The first species that reproduces the symptom of the whole file, reduced to one
+    feature; otherwise the first species that fails in any way; otherwise the optional
     blocks; otherwise 'context'."""
     wd = spec['write_date']
-    for sp in spec['species']:
-        if not _roundtrip_ok([sp], wd, tmp):
-            return diagnose_species(sp, wd, tmp)
-    if spec.get('supp') and not _roundtrip_ok(spec['species'][:1], wd, tmp, supp=spec['supp']):
+    for sym in ((symptom, None) if symptom is not None else (None,)):
+        for sp in spec['species']:
+            if _bad(sp, wd, tmp, sym):
+                return diagnose_species(sp, wd, tmp, sym)
+    one = spec['species'][:1]
+    if spec.get('supp') and _roundtrip(one, wd, tmp, supp=spec['supp']) != 'ok':
         return {'cause': 'supp_data'}
-    if spec.get('supp_txt') is not None and not _roundtrip_ok(spec['species'][:1], wd, tmp,
-                                                              supp_txt=spec['supp_txt']):
+    if spec.get('supp_txt') is not None and _roundtrip(one, wd, tmp, supp_txt=spec['supp_txt']) != 'ok':
         return {'cause': 'supp_txt'}
     return {'cause': 'context'}
 
@@ -635,18 +664,19 @@ class _Diag:
 
     def __init__(self, spec, tmp):
         self.spec, self.tmp = spec, tmp
-        self._file = None
+        self._file = {}
         self._sp = {}
 
-    def file(self):
-        if self._file is None:
-            self._file = diagnose_file(self.spec, self.tmp)
-        return self._file
+    def file(self, symptom=None):
+        if symptom not in self._file:
+            self._file[symptom] = diagnose_file(self.spec, self.tmp, symptom)
+        return self._file[symptom]
 
-    def species(self, i):
-        if i not in self._sp:
-            self._sp[i] = diagnose_species(self.spec['species'][i], self.spec['write_date'], self.tmp)
-        return self._sp[i]
+    def species(self, i, symptom='silent'):
+        if (i, symptom) not in self._sp:
+            self._sp[(i, symptom)] = diagnose_species(self.spec['species'][i], self.spec['write_date'],
+                                                      self.tmp, symptom)
+        return self._sp[(i, symptom)]
 
 
 # ---------------------------------------------------------------- classes / non-triviality
@@ -944,7 +974,7 @@ def run_case(spec, ctx):
     except core.HarnessError:
         raise
     except Exception as e:
-        ctx.fail('L1', dict({'step': 'write', 'exc': type(e).__name__}, **diag.file()),
+        ctx.fail('L1', dict({'step': 'write', 'exc': type(e).__name__}, **diag.file('write:' + type(e).__name__)),
                  message=str(e)[:300], where=core._tb_where(e))
         return
     wrote = dict(_PC)
@@ -971,8 +1001,8 @@ def run_case(spec, ctx):
         except core.HarnessError:
             raise
         except Exception as e:
-            ctx.fail('L1', dict({'step': 'write_other_mode', 'exc': type(e).__name__}, **diag.file()),
-                     message=str(e)[:300])
+            ctx.fail('L1', dict({'step': 'write_other_mode', 'exc': type(e).__name__},
+                                **diag.file('write:' + type(e).__name__)), message=str(e)[:300])
         finally:
             if os.path.exists(other):
                 os.remove(other)
@@ -1011,8 +1041,9 @@ def run_case(spec, ctx):
     except core.HarnessError:
         raise
     except Exception as e:
-        ctx.fail('L2', dict({'step': 'read', 'exc': type(e).__name__}, **diag.file()),
-                 message=str(e)[:300], where=core._tb_where(e), names_read=list(_ST['names_read'])[-5:])
+        names_read = list(_ST['names_read'])[-5:]
+        ctx.fail('L2', dict({'step': 'read', 'exc': type(e).__name__}, **diag.file('read:' + type(e).__name__)),
+                 message=str(e)[:300], where=core._tb_where(e), names_read=names_read)
         _cleanup(path, tmp)
         return
     seen = dict(_PC)
@@ -1045,14 +1076,14 @@ def run_case(spec, ctx):
         culprit = None
         if dropped and dropped[0] in [s['name'] for s in sps]:
             culprit = [s['name'] for s in sps].index(dropped[0])
-        feat = diag.species(culprit) if culprit is not None else diag.file()
+        feat = diag.species(culprit) if culprit is not None else diag.file('silent')
         what = 'dropped' if dropped else 'duplicated' if dupl else 'count'
         ctx.fail('L4', dict({'what': what}, **feat), returned=len(vals), entries_in_file=len(P.entries),
                  dropped=dropped[:5], duplicated=dupl[:5], got_names=got_names[:8], want_names=want_names[:8])
     # ---- PRB: line classification of the reader versus lines written ------------------------
     if aligned:
         def feat():
-            return {} if conserved else diag.file()
+            return {} if conserved else diag.file('silent')
         for k in (1, 2, 3, 4):
             lab = '_read_line%d' % k
             if _present(lab):
@@ -1070,8 +1101,7 @@ def run_case(spec, ctx):
                                       **({} if ok else feat())), true_returns=seen.get('temp_header:True', 0))
 
     # ---- L2 / L3 per species -----------------------------------------------------------------
-    if len(vals) != len(expected):
-        ctx.fail('L2', dict({'what': 'length'}, **diag.file()), returned=len(vals), want=len(expected))
+    if len(vals) != len(expected):          # reported by L4; positions cannot be aligned
         _cleanup(path, tmp)
         return
     ctx.check('L2', got_names == want_names or not conserved, {'what': 'order'},
